@@ -26,6 +26,10 @@ def new_ex(tl=120000):
     def isdigit(ex, st, a): return b2i(and_(le(48, a[0]), le(a[0], 57)))
     def isspace(ex, st, a): return b2i(or_(eq(a[0], 32), and_(le(9, a[0]), le(a[0], 13))))
     ex.contracts["isdigit"] = isdigit; ex.contracts["isspace"] = isspace
+    # pure leaf functions of the civil-time header used by ToTM: merged per call instead of forking the caller
+    for pat in (r"detail::get_weekday\(", r"detail::get_yearday\(", r"impl::is_leap_year\(", r"anonymous namespace\)::ToTmWday\("):
+        try: ex.merge_fns.add(build.find_func(mod, pat))
+        except LookupError: pass
     return ex
 
 def lit(ex, st, text, name="lit"):
